@@ -90,12 +90,9 @@ private def hcell : ECell → String
 
 private def hmix (l : List String) : String := "(" ++ " ".intercalate l ++ ")"
 
-private def heAnswer (eq ne : Bool) (ha hb : Except Err String) : String :=
-  let st : Except Err String → SExp := fun r => match r with | .ok _ => .atom "ok" | .error e => .atom ("err:" ++ e.toString)
-  let same := match ha, hb with
-    | .ok x, .ok y => x == y
-    | _, _ => false
-  answer (.ok (.list [ofBool eq, ofBool ne, st ha, st hb, ofBool same]))
+private def heAnswer (eq ne : Bool) (ha hb : String) : String :=
+  -- hash never raises since commit 7f42cd3 (labels are hashed, not `.values`)
+  answer (.ok (.list [ofBool eq, ofBool ne, .atom "ok", .atom "ok", ofBool (ha == hb)]))
 
 /-- the 16 option sets in the order name*8 + dtype*4 + class*2 + skipna -/
 private def allOpts : List Opts :=
